@@ -41,6 +41,7 @@ def unit_range():
         "harnesses": _range_harnesses,
         "decode": _range_decode,
         "panic_tags": ["C13", "C03"],
+        "weight": 1,
         "timeout": {"quick": 900, "thorough": 3000},
     }
 
@@ -182,7 +183,7 @@ QUICK_SERVE = {'C01': ['serve_full_get_enone_m0_h0_absent_hd',
          'serve_single_get_estrong_m1_h2_same',
          'serve_full_get_ecomma_m0_h3_absent_hd',
          'serve_full_get_enone_m0_h0_absent_bd'],
- 'C03': ['serve_unsat_get_estrong_m1_h2_absent', 'serve_single_get_eweak_m1_h1_absent', 'serve_multi_get_estrong_m1_h1_absent_r2_rev'],
+ 'C03': ['serve_unsat_get_enone_m0_h0_absent', 'serve_single_get_enone_m0_h0_absent', 'serve_multi_get_estrong_m1_h1_absent_r2_rev'],
  'C05': ['serve_single_get_estrong_m1_h2_same',
          'serve_multi_get_estrong_m1_h2_same_r2_req',
          'serve_single_get_eweak_m1_h1_same_hd',
